@@ -66,13 +66,13 @@ func C10(c *core.Ctx) {
 			continue
 		}
 		inline := inlineIssues(c, mb)
-		runMember(c, mb, rules, 64, func(w *fam.World, fm *fam.FileModel) []fam.Issue {
+		runMember(c, mb, rules, 256, func(w *fam.World, fm *fam.FileModel) []fam.Issue {
 			return notIn(inline, append(checkRoot(w, fm), w.TypIssues(c.Prog.Repo)...))
 		})
 	}
 	for _, mb := range sharedRefMembers(cfg) {
 		inline := inlineIssues(c, mb)
-		runMember(c, mb, rules, 64, func(w *fam.World, fm *fam.FileModel) []fam.Issue {
+		runMember(c, mb, rules, 256, func(w *fam.World, fm *fam.FileModel) []fam.Issue {
 			out := notIn(inline, append(checkRoot(w, fm), w.TypIssues(c.Prog.Repo)...))
 			return append(out, sharedTypeIssues(w, fm)...)
 		})
